@@ -236,7 +236,9 @@ class OffsetOperandStub:
                         )
                         fixup_active = False
                         return Symbol(token.ctx_start, token.ctx_end, token.representation, is_necessarily_label=True)
-                elif isinstance(token, (Symbol, InstructionPointer)):
+                elif isinstance(token, (Symbol, InstructionPointer, ParenthesizedExpression)):
+                    # A '<...>' or '^/.../' group states the intent just like
+                    # '(...)' does (which disables the fix-up altogether)
                     fixup_active = False
                 # Anything else (decimal or radix-prefixed numbers, character
                 # literals, bracketed subexpressions) cannot be a local label
